@@ -650,7 +650,26 @@ def grammar_stream(ctx, dialects):
         _, p = g.pattern(rng.randint(1, 10))
         tuples.append((d, rng.choice(["", "x", "i"]), p, "", "", "rendered"))
         tuples.append((d, "", gen.mutate(rng, p), "", "", "mutated"))
-    special = ["\\p{L}", "\\p{Lx}", "\\p{}", "\\p{IsGreek}", "\\p{IsNoSuchBlock}", "\\p{Is}", "\\p{Cs}", "\\P{Zs}", "\\pL",
+    # an XPath extension grafted onto a generated pattern: a reluctant marker after a quantifier, a
+    # non-capturing group, a back-reference, \$ (all must be rejected under XSD, accepted under XPath)
+    for _ in range(ctx.n(3000, 30000)):
+        d = rng.choice(dialects)
+        g = gen.Gen(rng, alphabet="ab", dialect="xsd", feats={"cls", "grp", "alt", "quant", "dot"})
+        _, p = g.pattern(rng.randint(2, 8))
+        qpos = [i for i, ch in enumerate(p) if ch in "*+?}" and (i == 0 or p[i - 1] != "\\")]
+        k = rng.random()
+        if qpos and k < 0.6:
+            i = rng.choice(qpos)
+            p = p[:i + 1] + "?" + p[i + 1:]
+        elif k < 0.75 and "(" in p:
+            i = p.index("(")
+            p = p[:i + 1] + "?:" + p[i + 1:]
+        elif k < 0.9 and ")" in p:
+            p = p + "\\1"
+        else:
+            p = p + "\\$"
+        tuples.append((d, "", p, "", "", "extension"))
+    special = ["(a*)??b", "x(a?)??", "(a|)??y", "(())??d", "(a*)*?", "(a?)+?", "(a|b*)??", "a*??", "\\p{L}", "\\p{Lx}", "\\p{}", "\\p{IsGreek}", "\\p{IsNoSuchBlock}", "\\p{Is}", "\\p{Cs}", "\\P{Zs}", "\\pL",
                "\\e", "\\0", "\\", "a\\", "[b-a]", "[a-a]", "[]", "[^]", "[a", "a]", "(a", "a)", "a{2,1}", "a{1,2}", "a{,2}",
                "a{1,", "a{a}", "a{1}{2}", "a**", "a+*", "*a", "+", "?", "|", "a|", "|a", "()", "(?:)", "(?:a", "(?a)",
                "(a)\\1", "(a)\\2", "\\1(a)", "(a\\1)", "(a)[\\1]", "(a)(b)(c)(d)(e)(f)(g)(h)(i)(j)\\10", "(a)\\10",
